@@ -29,6 +29,36 @@ pub fn step(ctx: &Ctx, w: &World, ev: &mut Ev) {
             }
         }
     }
+    // an OpenPosition on the opposite side that closes the whole existing position (with or without opening a new
+    // one) is a close of that position: one that leaves the trader owing more than the margin must not pay them.
+    if let Op::Open { vamm, .. } = &ctx.step.op {
+        let v = *vamm;
+        if let Some(class) = classify_open(ctx, w) {
+            if matches!(class.kind, OpenKind::Reverse | OpenKind::DustReverse) {
+                if let Some(pos) = class.pos.clone().filter(|p| p.size != 0) {
+                    let f = match ctx.model.cum_ref.get(v).cloned().flatten() {
+                        Some(c) => funding_owed(c, pos.checkpoint, pos.size, d),
+                        None => owed(ctx.pre, v, &actor, d),
+                    };
+                    if let (Some(f), Some(realised)) = (f, pnl(pos.dir, class.q_close, pos.notional)) {
+                        let e = pos.margin as i128 + realised - f;
+                        let side = if pos.size > 0 { "long" } else { "short" };
+                        let got = ctx.sent(&eng, &actor);
+                        ev.eval(true, &("close_by_open", class.kind, side, sign(e), got > 0), || {
+                            json!({"close_by_opposite_order": class.kind.s(), "side": side, "old_margin": pos.margin.to_string(), "realised_pnl": realised.to_string(), "funding_owed": f.to_string(), "old_equity": e.to_string(), "paid_to_trader": got.to_string()})
+                        });
+                        if e < 0 {
+                            ev.count("close_by_open_with_negative_equity");
+                            if got > 0 {
+                                ev.violation("bad_debt_rejected", &format!("{},{}", class.kind.s(), side), json!({"old_equity": e.to_string(), "paid_to_trader": got.to_string(), "old_margin": pos.margin.to_string(), "realised_pnl": realised.to_string(), "funding_owed": f.to_string()}));
+                            }
+                        }
+                    }
+                }
+            }
+        }
+        return;
+    }
     let v = match &ctx.step.op {
         Op::Close { vamm, .. } => *vamm,
         _ => return,
